@@ -64,8 +64,17 @@ GNextP ==
   /\ Len(hist) < GenLen
   /\ \/ \E w \in Words : GAppend(w, "direct")
      \/ GSendOk \/ GSendRetry \/ GSendRej \/ GSendEof \/ GClose \/ GOpen \/ GCrash
+     \/ GAge \/ GPurge      \* the run loop's purge by age between two SendWrite calls (a failed send followed by a purge)
      \/ \E m \in SegSizes : GSetMax(m)
 
+\* the sender against the purge by age, enumerated exhaustively (every interleaving of a failed or successful
+\* SendWrite with ageing, purge and new appends up to GenLen steps)
+GNextPA ==
+  /\ Len(hist) < GenLen
+  /\ \/ \E w \in Words : GAppend(w, "direct")
+     \/ GSendOk \/ GSendRetry \/ GSendEof \/ GAge \/ GPurge
+
+GSpecPA == GInit /\ [][GNextPA]_gvars
 GSpecQ == GInit /\ [][GNextQ]_gvars
 GSpecP == GInit /\ [][GNextP]_gvars
 
